@@ -604,3 +604,96 @@ MANIFEST = dict(
 # Put, no goroutine sharing a buffer with its spawner
 TRUSTED = list(TRUSTED) + ['generated obligations Proofs/AtomFront.v about coq/Gen/Atomicity.v (tools/lockscan, go/ast: package-level variables with the kind of their type, sync.Pool.Put sites with the later mentions of the object or of a local view of its memory - slicings, dereferences, appends, local function literals that mention it, results handed out by a function whose Put is deferred -, variables shared by go statements); re-proved on every run, in a private re-generated copy under VERIF_EXTRA_OVERLAY']
 MANIFEST = dict(MANIFEST, level_note=MANIFEST.get('level_note', '') + ' Generated obligation Proofs/AtomFront.v (re-proved about the source on every run): in the front-door code no byte buffer lives at package level, no pooled object or local view of it is used after its Put, no goroutine shares a buffer with its spawner - what lets the models treat a connection\'s first packet, parsed hello and reply as values of that connection alone.')
+
+
+# ---- client side of session establishment: Model/Connector.v vs the real client.MakeSession (harness/server/connector_test.go)
+def connector(ctx, verdict):
+    import vlib
+    cases = [('chrome', 1, 'o'), ('firefox', 1, 'o'), ('safari', 1, 'o'), ('chrome', 1, 'ho'), ('chrome', 1, 'do'), ('firefox', 1, 'dho'),
+             ('chrome', 3, 'hhhooo'), ('safari', 2, 'ddoo'), ('chrome', 4, 'oooo'), ('firefox', 2, 'hhoo')]
+    if not ctx.quick():
+        cases += [('chrome', 1, 'hdho'), ('safari', 1, 'hhdo'), ('chrome', 8, 'dddddddd' + 'oooooooo'), ('chrome', 2, 'hhoo')]
+    lines, mlines = [], []
+    for i, (b, n, sc) in enumerate(cases):
+        lines.append('k%d K %s %d %s' % (i, b, n, sc))
+        per = [sc] if n == 1 else [sc[0] + 'o'] * n if len(sc) == 2 * n else ['o'] * n
+        mlines.append('k%d K 1 %s %s' % (i, b[0], '/'.join(per)))
+    inp, minp, out, mout = ['%s/connector.%s' % (ctx.work, x) for x in ('in', 'min', 'go.out', 'model.out')]
+    open(inp, 'w').write('\n'.join(lines) + '\n'); open(minp, 'w').write('\n'.join(mlines) + '\n')
+    rc, log, dt = vlib.go_test(ctx, 'server', 'TestVerifConnector', files=['connector_test.go', 'c06_rig_test.go', 'c10_test.go'],
+                               env=dict(VERIF_IN=inp, VERIF_OUT=out), timeout=600, util=False)
+    got = vlib.read_lines_by_id(out)
+    broken = []
+    if rc != 0 or len(got) < len(cases):
+        broken.append(('Go driver TestVerifConnector failed rc=%d' % rc, log[-3000:]))
+    mrc, merr = vlib.run_model('connector', minp, mout)
+    mod = vlib.read_lines_by_id(mout)
+    if mrc != 0:
+        broken.append(('connector model failed rc=%d' % mrc, merr[-2000:]))
+
+    def cls(h):
+        if h == '-':
+            return '-'
+        n = int(h)
+        return 'c' if n > 1500 else 'f' if n > 590 else 's'
+    mism, fails = [], 0
+    for i, (b, n, sc) in enumerate(cases):
+        g = got.get('k%d' % i)
+        if g is None:
+            continue
+        o = dict(x.split('=', 1) for x in g.split())
+        per = mlines[i].split()[4].split('/')
+        max_sleeps = max(s.count('d') + s.count('h') for s in per)
+        why = None
+        if o['est'] != '1':
+            why = 'client.MakeSession did not return although every connection attempt eventually succeeds'
+        elif o['echo'] != 'ok':
+            why = 'the session MakeSession returned does not carry data to the server\'s session and back (key or connection set wrong)'
+        elif int(o['nconn_server']) != n:
+            why = 'the server\'s session was given %s connections, NumConn is %d' % (o['nconn_server'], n)
+        elif int(o['elapsed_ms']) < 3000 * max_sleeps - 100:
+            why = 'a retry was made without the pause: %s ms for %d consecutive failed attempts of one goroutine' % (o['elapsed_ms'], max_sleeps)
+        if why:
+            fails += 1
+            verdict.oracle_failure('connector:' + why[:50], 'C06 oracle (client.MakeSession, browser %s, NumConn %d, Dial outcomes "%s"): %s - observed %s' % (b, n, sc, why, g),
+                                   dict(kind='connector', case=lines[i], observed=g, how='go test -run TestVerifConnector with harness/server/connector_test.go (VERIF_IN = the case line)'))
+        m = mod.get('k%d' % i)
+        if m is not None:
+            ms = m.split()
+            sigs = [x.split('=')[1] for x in ms if x.startswith('sig=')]
+            want_dials = sum(int(x.split('=')[1]) for x in ms if x.startswith('dials='))
+            # classes per attempt: a failed dial shows no hello
+            want = sorted(('-' if s[j] == 'd' else sg[j]) for s, sg in zip(per, sigs) for j in range(len(s)))
+            have = sorted(cls(h) for h in o['hellos'].split(','))
+            if (n == 1 and [('-' if per[0][j] == 'd' else sigs[0][j]) for j in range(len(per[0]))] != [cls(h) for h in o['hellos'].split(',')]) \
+                    or want != have or want_dials != int(o['dials']) or ms[0] != 'est=' + o['est']:
+                mism.append(dict(case=lines[i], model=m, impl=g))
+    if mism:
+        import json
+        broken.append(('model != implementation on client.MakeSession (%s)' % mism[0]['case'], json.dumps(mism[:3], indent=1)))
+    verdict.cov['connector_cases'] = dict(cases=len(cases), answered=len(got), oracle_failures=fails, go_seconds=round(dt, 1))
+    return broken
+
+
+EXTRACT_FILES = ['Extract/C06', 'Extract/Connector']
+TRUSTED = list(TRUSTED) + ['client side of session establishment: hand-written model coq/Model/Connector.v of client.MakeSession (per goroutine: create transport, dial, handshake, 3 s pause and retry, chrome -> firefox fallback after a failed handshake in direct mode, store key, hand over; session built from the key stored last, given every connection); the network (outcome of every attempt) is an input; correspondence: the real client.MakeSession against the real dispatcher through a dialer with scripted outcomes per Dial call (harness/server/connector_test.go), signatures recognised by the size of the first flight']
+MANIFEST = dict(MANIFEST, level_text=MANIFEST['level_text'] + ' Client side of establishment (Model/Connector.v, any script of failing / succeeding attempts per goroutine): C06_connector_one_connection_per_goroutine, C06_connector_signatures, C06_connector_configured_signature_until_a_handshake_fails, C06_connector_session, C06_connector_session_key_is_the_servers (the session is built from a key a successful handshake returned - with C06_same_session_same_key: the server\'s).')
+_corr_before_connector = correspondence
+_replay_before_connector = replay
+
+
+def correspondence(ctx, verdict, pr):
+    res = _corr_before_connector(ctx, verdict, pr)
+    res['broken'] += connector(ctx, verdict)
+    return res
+
+
+def replay(ctx, verdict):
+    if ctx.replay.get('kind') == 'connector':
+        import vlib, os
+        inp, out = '%s/connector.in' % ctx.work, '%s/connector.out' % ctx.work
+        open(inp, 'w').write(ctx.replay['case'] + '\n')
+        rc, log, dt = vlib.go_test(ctx, 'server', 'TestVerifConnector', files=['connector_test.go', 'c06_rig_test.go', 'c10_test.go'], env=dict(VERIF_IN=inp, VERIF_OUT=out), timeout=600, util=False)
+        print(open(out).read() if os.path.exists(out) else log[-1500:])
+        return 0
+    return _replay_before_connector(ctx, verdict)
